@@ -63,7 +63,7 @@ ASSUMPTIONS = [
 PROMPTS = [b"=> ", b"=> ", b"=> ", b"U-Boot> ", b"U-Boot> ", b"U-Boot# ", b"> ", b"=>", "µBoot» ".encode()]
 CMDS = ["echo", "md", "version", "mw.l", "run", "printenv", "setenv", "bdinfo", "crc32", "true", "false", "tftp"]
 UTF = ["é".encode(), "✓".encode(), "😀".encode(), b"\xff", b"\xc3", b"\xe2\x9c"]
-VARS = ["bootargs", "ipaddr", "foo_1", "a", "tbot_test_env_var", "bootcmd", "a b", "x$y", "größe", "v'q", "b\\s", "a=b", "",
+VARS = ["crc32", "bootargs", "ipaddr", "foo_1", "a", "tbot_test_env_var", "bootcmd", "a b", "x$y", "größe", "v'q", "b\\s", "a=b", "",
         "#c", "semi;colon", "✓"]
 
 
@@ -130,6 +130,9 @@ def gen_op(rng, prompt, known):
         else:
             head = rng.choice(CMDS) if rng.random() < 0.8 else gen_arg(rng)
             args = [head] + [gen_arg(rng) for _ in range(rng.choice([0, 1, 1, 2, 2, 3, 4]))]
+            if head != "crc32" and rng.random() < 0.08:
+                # the word `crc32` as an ARGUMENT (a variable called crc32, `hash crc32 …`): no special case applies
+                args.insert(rng.choice([1, 1, min(2, len(args))]), "crc32")
         return "/".join([kind, lst(chars(a) for a in args), hx(gen_out(rng, prompt, crc)), str(gen_status(rng))])
     var = rng.choice(VARS) if rng.random() < 0.8 else gen_arg(rng)
     if k < 0.85:
